@@ -310,11 +310,13 @@ fn c16_open_io() {
     }
 }
 
-/// Source that serves every read in short pieces (symbolic 1..=8 bytes per call) and may report Interrupted (<= 2 times).
+/// Source that serves every read in short pieces (at most `chop` bytes per call, chop symbolic 1..=8) and may report Interrupted once.
 pub(crate) struct ShortSrc<'a> {
     pub data: &'a [u8],
     pub pos: u64,
     pub interrupts: u32,
+    /// at most this many bytes per read call (symbolic, chosen once per run: 1..=8)
+    pub chop: usize,
 }
 impl<'a> Read for ShortSrc<'a> {
     fn read(&mut self, buf: &mut [u8]) -> io::Result<usize> {
@@ -325,11 +327,9 @@ impl<'a> Read for ShortSrc<'a> {
         let len = self.data.len() as u64;
         let start = if self.pos > len { len } else { self.pos };
         let avail = (len - start) as usize;
-        let chop: usize = kani::any();
-        kani::assume(chop >= 1 && chop <= 8);
         let mut n = if buf.len() < avail { buf.len() } else { avail };
-        if chop < n {
-            n = chop;
+        if self.chop < n {
+            n = self.chop;
         }
         let mut i = 0;
         while i < 8 {
@@ -370,7 +370,9 @@ fn c11_trailer_short_reads() {
     wide[..24].copy_from_slice(&bytes);
     let spec = spec_trailer(&wide, len);
     kani::assume(spec.is_some());
-    let src = ShortSrc { data: &bytes[..len], pos: 0, interrupts: 2 };
+    let chop: usize = kani::any();
+    kani::assume(chop >= 1 && chop <= 8);
+    let src = ShortSrc { data: &bytes[..len], pos: 0, interrupts: 1, chop };
     match Reader::new(src) {
         Ok(reader) => {
             if let Some((version, offset, codec, count, levels)) = spec {
